@@ -154,7 +154,7 @@ func (s *Store) MarkSeen(mailbox, id string) error {
 	s.withMailbox(mailbox, true, func(mb *mbox) {
 		m := mb.messages[id]
 		if m != nil {
-			m.seen = true
+			m.seen.Store(true)
 			err = nil
 		}
 	})
